@@ -428,11 +428,12 @@ fn strides_of(s: &[usize]) -> Vec<usize> {
 /// the axis: `ceil(j * 2^64 / stride) + small` (for a power-of-two stride `2^e` exactly the aliases `small + j * 2^(64-e)`),
 /// the floors next to them, and the values around 2^62, 2^63 and 2^64 (`-1`, `-dim`, `-dim + small`: a signed comparison or
 /// `c + dim` wraps)
-fn wrap_images(stride: usize, dim: usize) -> Vec<usize> {
+fn wrap_images(stride: usize, dim: usize) -> Vec<usize> { wrap_images_of(stride, dim, true) }
+fn wrap_images_of(stride: usize, dim: usize, full: bool) -> Vec<usize> {
     let (s, d) = (stride as u128, dim as u128);
     let mut v: Vec<u128> = vec![];
     if stride > 1 {
-        let mut js: Vec<u128> = vec![1, 2, 3, s / 2, s - 1];
+        let mut js: Vec<u128> = if full { vec![1, 2, 3, s / 2, s - 1] } else { vec![1, s - 1] };
         js.retain(|&j| j >= 1 && j < s); js.sort(); js.dedup();
         for j in js {
             let (up, dn) = ((j * TWO64 + s - 1) / s, j * TWO64 / s);
@@ -509,13 +510,13 @@ fn gen_wrap(thorough: bool, out: &mut dyn FnMut(String)) {
         if n <= 5000 {
             let d0 = s[0];
             let row = if d0 == 0 { 0 } else { n / d0 };
-            let mut imgs = wrap_images(row.max(1), d0);
-            if r == 1 { imgs.extend(wrap_images(2, n)); imgs.sort(); imgs.dedup(); }
-            for img in imgs {
+            // (the model of `indices_at` and its cross-check with the C11 model are quadratic: the short image list unless thorough)
+            let mut imgs = wrap_images_of(row.max(1), d0, thorough || n <= 30);
+            if r == 1 { imgs.extend(wrap_images_of(2, n, thorough)); imgs.sort(); imgs.dedup(); }
+            for (j, img) in imgs.into_iter().enumerate() {
                 out(format!("indices_at {a} {img}"));
-                out(format!("indices_at {a} 0,{img}"));
-                out(format!("indices_at {a} {img},{}", d0.saturating_sub(1)));
-                out(format!("indices_at {a} {}", d0.saturating_sub(1)));
+                if j % 2 == 0 { out(format!("indices_at {a} 0,{img}")); } else { out(format!("indices_at {a} {img},{}", d0.saturating_sub(1))); }
+                if j % 4 == 0 { out(format!("indices_at {a} {}", d0.saturating_sub(1))); }
             }
             let m = usize::MAX;
             for (x, y) in [(0, m), (m, m), (m, 0), (1 << 63, (1 << 63) + 1), (1, m), (m - 1, m), (0, 1 << 63), (0, (1 << 32) + 1), ((1 << 32) + 1, (1 << 32) + 2), (m - n, m), (0, (m - n).saturating_add(1))] {
@@ -583,8 +584,10 @@ fn gen_giant(thorough: bool, rng: &mut Rng, out: &mut dyn FnMut(String)) {
         if s.len() == 1 { ranges.extend(vec![(5, n - 3), ((1 << 20) - 3, n), (0, n)]); } else { ranges.extend(vec![(0, d0), (2, d0 + 2), (0, d0 - 1)]); }
         for (st, en) in ranges { out(format!("slice {a} {st} {en}")); }
         // the crate's `indices_at` splits the array into shape[0] pieces first: only short first axes
-        if s.len() == 1 || d0 <= 400 {
-            for l in [vec![0], vec![d0 - 1], vec![d0 - 1, 0], vec![d0], vec![1, 1], vec![0, d0 - 1, 1]] { out(format!("indices_at {a} {}", show_list(&l))); }
+        // (about 0.1 s per call at this size: quick = two lines on two shapes of rank >= 2, every line on the rank-1 shapes)
+        if s.len() == 1 || (d0 <= 400 && (thorough || s == &vec![3, 400_001] || s == &vec![33, 32, 31, 33])) {
+            let lists = if thorough || s.len() == 1 { vec![vec![0], vec![d0 - 1], vec![d0 - 1, 0], vec![d0], vec![1, 1], vec![0, d0 - 1, 1]] } else { vec![vec![d0 - 1, 0, 1], vec![d0]] };
+            for l in lists { out(format!("indices_at {a} {}", show_list(&l))); }
             if s.len() == 1 { out(format!("indices_at {a} {}", show_list(&[(1 << 20) - 1, 1 << 20, (1 << 20) + 1, n - 1, 0]))); }
         }
     }
@@ -821,6 +824,7 @@ fn short_out(o: &Out<Ans<i64>>) -> String {
 static VALIDATED: AtomicUsize = AtomicUsize::new(0);
 static NATIVE_JUDGED: AtomicUsize = AtomicUsize::new(0);
 static SOAKED: AtomicUsize = AtomicUsize::new(0);
+static CASE_NO: AtomicUsize = AtomicUsize::new(0);
 
 /// row-major position by the defining sum  pos = SUM_k c[k] * PROD_{j>k} shape[j]  (128-bit, no fold, no running stride);
 /// `None` = the vector is refused (wrong length or a component outside its axis)
@@ -992,10 +996,13 @@ fn exec_native(op: &str, args: &[&str], key: &str, c: &Call) -> Option<Verdict> 
     let base = call(&*a, c, false)?;
     if !agree(&o, &base) { return Some(Verdict::Mismatch { observed: format!("{}: {}", truncate(&short_out(&base), 200), first_diff(&o, &base)), detail: format!("{detail} says `{}`", truncate(&short_out(&o), 300)) }); }
     let aba = aba_step(op, args, &a, c, &base);
-    // the chained receiver clones the whole array twice: every case whose answer is small, on the i64 array only
+    // the chained receiver clones the whole array twice: every 16th case, on the i64 array only
     let light = !matches!(&base, Out::Ok(Ans::Arr { elems, .. }) if elems.len() > 4096);
-    let d = aba.or_else(|| variant::<i64>(key, c, &base, true, light && !matches!(c, Call::IndicesAt(_))))
-        .or_else(|| variant::<u8>(key, c, &base, true, false))
+    let chained = NATIVE_JUDGED.load(AtOrd::Relaxed) % 16 == 1;
+    // `indices_at` of rank >= 2 splits the whole array first (about 0.1 s per call at this size): the 3-byte image only
+    let heavy = matches!(c, Call::IndicesAt(_)) && shape.len() >= 2;
+    let d = aba.or_else(|| if heavy { None } else { variant::<i64>(key, c, &base, true, chained) })
+        .or_else(|| if heavy { None } else { variant::<u8>(key, c, &base, true, false) })
         .or_else(|| variant::<T3b>(key, c, &base, true, false))
         .or_else(|| if light { variant::<f64>(key, c, &base, true, false) } else { None })
         .or_else(|| if light { variant::<T3>(key, c, &base, true, false) } else { None });
@@ -1058,6 +1065,8 @@ fn exec(op: &str, args: &[&str], expected: &str) -> Option<Verdict> {
     // robustness streams: the same call a second time, the call on Ok(array), and the element-type sweep.
     // Arrays of up to 300 elements: every type on both receivers; larger ones: i64 / u8 on both, i8 / bool / f64 / 12- and 3-byte tuples plain.
     let small = a.len().unwrap() <= 300;
+    // the 32-byte non-`Copy` tuple (a String inside: the most expensive image to build): every 4th case
+    let every4 = CASE_NO.fetch_add(1, AtOrd::Relaxed) % 4 == 0;
     let d = aba.or(oracle_div).or_else(|| variant::<i64>(key, &c, &base, true, true))
         .or_else(|| variant::<u8>(key, &c, &base, true, true))
         .or_else(|| variant::<f64>(key, &c, &base, true, small))
@@ -1070,7 +1079,7 @@ fn exec(op: &str, args: &[&str], expected: &str) -> Option<Verdict> {
         .or_else(|| if small { variant::<f32>(key, &c, &base, true, true) } else { None })
         .or_else(|| if small { variant::<usize>(key, &c, &base, true, true) } else { None })
         .or_else(|| if small { variant::<String>(key, &c, &base, true, true) } else { None })
-        .or_else(|| if small { variant::<TW>(key, &c, &base, true, true) } else { None });
+        .or_else(|| if small && every4 { variant::<TW>(key, &c, &base, true, true) } else { None });
     if let Some(d) = d { observed = format!("{d}; plain Array<i64> call: {}", truncate(&observed, 300)); }
     Some(compare_default(observed, expected))
 }
